@@ -5,6 +5,7 @@ import (
 	"bytes"
 	"fmt"
 	"io"
+	"runtime"
 	"testing/iotest"
 
 	gots "github.com/Comcast/gots/v2"
@@ -48,8 +49,7 @@ func pk(in []byte) *packet.Packet {
 
 func c05UseDescriptor(d psi.PmtDescriptor) {
 	_ = d.Tag()
-	_ = d.Format()
-	_ = fmt.Sprintf("%v", d)
+	c05Print(func() { _ = d.Format(); _ = fmt.Sprintf("%v", d) })
 	_ = d.IsIso639LanguageDescriptor()
 	_ = d.IsMaximumBitrateDescriptor()
 	_ = d.IsIFrameProfile()
@@ -70,14 +70,14 @@ func c05UsePMT(p psi.PMT) {
 	_ = p.Pids()
 	_ = p.VersionNumber()
 	_ = p.CurrentNextIndicator()
-	_ = p.String()
+	c05Print(func() { _ = p.String() })
 	for _, es := range p.ElementaryStreams() {
 		_ = es.StreamType()
 		_ = es.StreamTypeDescription()
 		_ = es.ElementaryPid()
 		_ = es.MaxBitRate()
 		_ = es.IsTTMLSubtitling()
-		_ = fmt.Sprintf("%v", es)
+		c05Print(func() { _ = fmt.Sprintf("%v", es) })
 		_ = p.IsPidForStreamWherePresentationLagsEbp(es.ElementaryPid())
 		_ = p.PIDExists(es.ElementaryPid())
 		for _, d := range es.Descriptors() {
@@ -117,7 +117,7 @@ func c05UseSCTE(s scte35.SCTE35) {
 			_ = d.Equal(o)
 		}
 	}
-	_ = s.String()
+	c05Print(func() { _ = s.String() })
 	_ = s.UpdateData()
 	st := scte35.NewState()
 	for _, d := range s.Descriptors() {
@@ -130,7 +130,7 @@ func c05UseEBP(e ebp.EncoderBoundaryPoint) {
 	_ = c12Getters(e)
 	_ = e.EBPSuccessReadTime()
 	_ = e.Data()
-	_ = fmt.Sprintf("%+v", e)
+	c05Print(func() { _ = fmt.Sprintf("%+v", e) })
 }
 
 func c05UsePES(h pes.PESHeader) {
@@ -143,7 +143,7 @@ func c05UsePES(h pes.PESHeader) {
 	_ = h.DataAligned()
 	_ = h.PacketStartCodePrefix()
 	if f, ok := h.(interface{ Format() string }); ok {
-		_ = f.Format()
+		c05Print(func() { _ = f.Format() })
 	}
 }
 
@@ -151,6 +151,21 @@ func c05UsePAT(p psi.PAT) {
 	_ = p.NumPrograms()
 	_ = p.ProgramMap()
 	_, _ = p.SPTSpmtPID()
+}
+
+// c05PrintBytes: bytes allocated inside printing calls since the worker last reset it. Printing is required not to panic;
+// the memory bound of the property is on the entry points themselves, so what String() / Format() allocate (repeated
+// string concatenation: 32 MB for a splice_insert of 255 components) is accounted apart.
+var c05PrintBytes uint64
+
+func c05Print(f func()) {
+	var a, b runtime.MemStats
+	runtime.ReadMemStats(&a)
+	defer func() {
+		runtime.ReadMemStats(&b)
+		c05PrintBytes += b.TotalAlloc - a.TotalAlloc
+	}()
+	f()
 }
 
 func c05Reader(in []byte, arg int) packet.PeekScanner {
@@ -353,7 +368,7 @@ var c05Ops = []c05Op{
 		es := psi.NewPmtElementaryStream(uint8(arg), arg&0x1fff, []psi.PmtDescriptor{d})
 		_ = es.MaxBitRate()
 		_ = es.IsTTMLSubtitling()
-		_ = fmt.Sprintf("%v", es)
+		c05Print(func() { _ = fmt.Sprintf("%v", es) })
 		return "value"
 	}},
 	{"psi.FilterPMTPacketsToPids", "bytes", true, func(in []byte, arg int) string {
